@@ -16,8 +16,9 @@ THEOREMS = ['Pylx.C15_guard', 'Pylx.C15_guard_inside', 'Pylx.C15_guard_py', 'Pyl
             'Pylx.C15_nodir', 'Pylx.C15_nonstrict_unchanged', 'Pylx.C15_fix_agrees_inside',
             'Pylx.readLatexFile_strict',
             'Pylx.C15_asis_violates_guard_prefix', 'Pylx.C15_asis_violates_guard_completion', 'Pylx.C15_asis_violates_guard',
-            'Pylx.C15_nocanon_guard_idem', 'Pylx.C15_nocanon_violates_guard']
-RULE = ('INPUT: real directory layouts (inside files, outside files, sibling directories whose name extends the base name, a sibling '
+            'Pylx.C15_nocanon_guard_idem', 'Pylx.C15_nocanon_violates_guard',
+            'Pylx.C15_session', 'Pylx.C15_session_guard']
+RULE = ('INPUT: histories on one converter object (1-3 earlier set_tex_input_directory + read calls on other directories / non-strict / the same name, then the compared read); real directory layouts (inside files, outside files, sibling directories whose name extends the base name, a sibling '
         'file base.tex, file and directory symlinks inside->outside and outside->inside, absolute and chained and dangling and looping links, '
         'a directory named like a file, names with .tex / .latex / .tex.latex) x input directory given plainly / with trailing slash / '
         'through a symlink / with ".." / as a subdirectory x strict on/off x every requested name of up to `depth` components over the '
@@ -228,6 +229,55 @@ def cases(tier, rng):
         for nm in rand_names(rng, lay, dirs, files, links, D, 14 if quick else 20):
             yield {'lay': lay, 'dir': dsp, 'strict': rng.random() < 0.85, 'name': nm,
                    'mac': rng.choice(['input', 'input', 'include'])}
+    # 5. histories on one converter object
+    for c in session_cases(tier, rng):
+        yield c
+
+def session_cases(tier, rng):
+    """histories on ONE converter object: earlier set_tex_input_directory / read calls (other directories, non-strict
+    mode, successful reads of the very name asked for later) must not influence the last read (C15_session)"""
+    quick = tier != 'thorough'
+    K = kitchen()
+    kd = [e[1] for e in K if e[0] == 'd']
+    kf = [e[1] for e in K if e[0] == 'f']
+    kl = [(e[1], e[2]) for e in K if e[0] == 'l']
+    # same name present in several directories of the kitchen layout
+    fixed = [(['base2', True, 's'], 'base', 's'), (['base2', True, 'a.tex'], 'base', 'a.tex'), (['base2', True, 's.tex'], 'base', 's.tex'),
+             (['out', True, 's'], 'base', 's'), (['out', False, '../base2/s'], 'base', '../base2/s'), (['base', False, '../out/s.tex'], 'base', '../out/s.tex'),
+             (['out/base', True, 'a'], 'base', 'a'), (['out/base', True, 'a'], 'base2', 'a'), (['base', True, 'a'], 'base2', 'a'),
+             (['out', True, 't'], 'base2', 't'), (['base', True, 'sub/d'], 'base2', 'sub/d'), (['base2', True, 's'], None, 's')]
+    for pre, D, nm in fixed:
+        for via in ('read', 'l2t'):
+            for mac in ('input', 'include'):
+                c = {'lay': K, 'dir': D, 'strict': True, 'name': nm, 'mac': mac, 'pre': [pre + [via]]}
+                if D is None:
+                    c['nodir'] = 'none'
+                yield c
+    n = 250 if quick else 6000
+    for _ in range(n):
+        if rng.random() < 0.5:
+            lay, dirs, files, links = K, kd, kf, kl
+        else:
+            lay, dirs, files, links = rand_layout(rng)
+        D = rng.choice(dirs)
+        nm = rand_names(rng, lay, dirs, files, links, D, 1)[0]
+        if rng.random() < 0.6 and files:
+            # a name that certainly exists somewhere else
+            f = rng.choice(files)
+            nm = os.path.basename(f)
+            if rng.random() < 0.5:
+                for ext in ('.latex', '.tex'):
+                    if nm.endswith(ext):
+                        nm = nm[:-len(ext)]; break
+            pre_dirs = [os.path.dirname(f) or '.']
+        else:
+            pre_dirs = []
+        pre = []
+        for _ in range(rng.randint(1, 3)):
+            pd = rng.choice(pre_dirs) if (pre_dirs and rng.random() < 0.7) else rng.choice(dirs)
+            pn = nm if rng.random() < 0.75 else rand_names(rng, lay, dirs, files, links, pd, 1)[0]
+            pre.append([pd, rng.random() < 0.6, pn, rng.choice(['read', 'read', 'l2t'])])
+        yield {'lay': lay, 'dir': D, 'strict': rng.random() < 0.85, 'name': nm, 'mac': rng.choice(['input', 'include']), 'pre': pre}
 
 # ---------------------------------------------------------------- building real layouts
 
@@ -416,6 +466,15 @@ def _run(c, top, root, h, LatexNodes2Text):
     nodir = c['dir'] is None
     fail = None
     l2t = LatexNodes2Text()
+    for pd, pstrict, pname, via in c.get('pre') or []:
+        # earlier life of the same object (its answers are irrelevant here; each is a case of its own elsewhere)
+        l2t.set_tex_input_directory(root + '/' + pd, strict_input=pstrict)
+        pn = pname.replace('{R}', root)
+        if via == 'l2t':
+            l2t.latex_to_text('\\input{%s}' % pn)
+        else:
+            l2t.read_input_file(pn)
+    del h.msgs[:]
     if nodir:
         if c.get('nodir') == 'none':
             l2t.set_tex_input_directory(None, strict_input=strict)
@@ -511,6 +570,8 @@ def _run(c, top, root, h, LatexNodes2Text):
         feats += 'L'                      # a symlink was crossed
     if noncanon:
         feats += 'X'                      # realpath() answer is not a fixed point (link loop)
+    if c.get('pre'):
+        feats += 'H%d' % len(c['pre'])   # history on the same object
     sig = '%s:%s:%s:%s' % (cls, 'S' if strict else 'N', where, feats)
     return {'out': out, 'fail': fail, 'sig': sig}
 
@@ -534,6 +595,10 @@ def shrink_candidates(c):
     if c.get('mac') != 'input':
         d = dict(c); d['mac'] = 'input'
         yield d
+    pre = c.get('pre') or []
+    for i in range(len(pre)):
+        d = dict(c); d['pre'] = pre[:i] + pre[i+1:]
+        yield d
 
 def known_match(m, case, fail):
     if 'name' in m:
@@ -548,7 +613,7 @@ LEVEL_TEXT = ('Theorems C15_guard / C15_guard_inside / C15_guard_py prove, for e
               'run-time canonicity check does on the answers CPython gives for link loops (concrete file systems). The model is tied to the code on real directory '
               'layouts: the real os.path answers are recorded and given to the model as its oracle, outcome class (from the logged warning) and '
               'returned text are compared, and the oracle checks on the implementation that no outside marker content is returned and inside files are read, '
-              'also through latex_to_text.')
+              'also through latex_to_text. C15_session / C15_session_guard: over every history of set/read calls on one converter object the answer is that of a fresh object with the current configuration (histories are run on the implementation before the compared read).')
 LEVEL_NOTE = ('decision logic proved; the operating system (os.path, open) is trusted and enters as recorded oracle answers; time-of-check/time-of-use races, '
               'undecodable files and NUL in names are outside the model; Lean kernel + propext/Classical.choice/Quot.sound')
 TECHNIQUE = 'Lean 4 proof over an abstract file-system oracle + correspondence and marker oracle on real temporary directory layouts'
